@@ -10,9 +10,9 @@ use crate::driver::{expected_obs, observe_response, RespObs};
 use crate::engine::{guarded, hex, show, unhex, Report, Tier, Violation};
 use crate::refmodel::head;
 
-pub const RULE: &str = "every head of the small-scope grammar: version {1.0,1.1} x status {101,200,204,299,301,302,304,307,399,404,500,999} x reason {none, empty, OK, 300-byte with obs-text} x all ordered field lists of length 0..=2 (thorough 0..=3) over a 18-entry pool (incl. a value with UTF-8 encoded Unicode white space at both ends and one with tabs inside) (repeated names, no OWS, OWS both sides, empty value, obs-text, Location, Content-Length, Set-Cookie, Transfer-Encoding: chunked, two Connection spellings, list values with empty or white-space-only elements, a 20-digit zero-padded length), every other status 101..=999 over HTTP/1.1 with three small field lists, plus heads with 0,1,127,128 (accepted) and 129,130,200 (rejected) fields; for every head EVERY prefix length and the head followed by {1 byte, garbage, a second response, a stray CRLF, CRLF CRLF and a response}; entry points Flow::try_response (GET flow, HEAD flow, POST flow with Expect: 100-continue whose caller gave up waiting, and the same flow after try_read_100 took the same window as a refusal and the body was skipped), Call::try_response, parser::try_parse_response::<128>; each prefix on a fresh object AND all prefixes in growing order on one object followed by the complete head. plus call sequences: equal-length prefixes of two different heads offered one after the other, from the same buffer, to different entry points, with the library's logging off and at level Trace. distinct = distinct (head, entry point) pairs whose every prefix was checked";
+pub const RULE: &str = "every head of the small-scope grammar: version {1.0,1.1} x status {101,200,204,299,301,302,304,307,399,404,500,999} x reason {none, empty, OK, 300-byte with obs-text} x all ordered field lists of length 0..=2 (thorough 0..=3) over a 19-entry pool (incl. a value with UTF-8 encoded Unicode white space at both ends and one with tabs inside) (repeated names, no OWS, OWS both sides, empty value, obs-text, Location, Content-Length, Set-Cookie, Transfer-Encoding: chunked, two Connection spellings, list values with empty or white-space-only elements, a 20-digit zero-padded length), every other status 101..=999 over HTTP/1.1 with three small field lists, plus a 78 KiB head of 128 fields, plus heads with 0,1,127,128 (accepted) and 129,130,200 (rejected) fields; for every head EVERY prefix length and the head followed by {1 byte, garbage, a second response, a stray CRLF, CRLF CRLF and a response}; entry points Flow::try_response (GET flow, GET flow of an HTTP/1.0 request, HEAD flow, POST flow with Expect: 100-continue whose caller gave up waiting, and the same flow after try_read_100 took the same window as a refusal and the body was skipped), Call::try_response, parser::try_parse_response::<128>; each prefix on a fresh object AND all prefixes in growing order on one object followed by the complete head. plus call sequences: equal-length prefixes of two different heads offered one after the other, from the same buffer, to different entry points, with the library's logging off and at level Trace. distinct = distinct (head, entry point) pairs whose every prefix was checked";
 
-const FRONTS: [&str; 6] = ["flow-GET", "flow-HEAD", "call", "parser", "flow-POST-expect", "flow-POST-refused"];
+const FRONTS: [&str; 7] = ["flow-GET", "flow-HEAD", "call", "parser", "flow-POST-expect", "flow-POST-refused", "flow-GET-http10"];
 
 #[derive(Debug)]
 enum Out {
@@ -40,9 +40,10 @@ fn call_front_at(front: &str, bases: &Bases, input: &[u8], follow: &[u8]) -> Res
     // returns (outcome, side-condition ok: after NeedMore not ready, and either the internal state is unchanged
     // or the object still answers the complete head like a fresh one)
     match front {
-        "flow-GET" | "flow-HEAD" | "flow-POST-expect" => {
+        "flow-GET" | "flow-HEAD" | "flow-POST-expect" | "flow-GET-http10" => {
             let mut f = match front {
                 "flow-GET" => bases.get.clone(),
+                "flow-GET-http10" => bases.get10.clone(),
                 "flow-HEAD" => bases.head.clone(),
                 _ => bases.post_expect.clone(),
             };
@@ -101,6 +102,8 @@ fn call_front_at(front: &str, bases: &Bases, input: &[u8], follow: &[u8]) -> Res
 
 struct Bases {
     get: ureq_proto::client::flow::Flow<(), ureq_proto::client::flow::state::RecvResponse>,
+    /// the same for a request sent as HTTP/1.0 (the version of the request is no part of the response grammar)
+    get10: ureq_proto::client::flow::Flow<(), ureq_proto::client::flow::state::RecvResponse>,
     head: ureq_proto::client::flow::Flow<(), ureq_proto::client::flow::state::RecvResponse>,
     call: ureq_proto::client::call::Call<ureq_proto::client::call::state::RecvResponse, ()>,
     /// POST with Expect: 100-continue whose caller gave up waiting and sent the body: the flow
@@ -120,7 +123,7 @@ fn bases() -> Bases {
             _ => panic!("harness: expected Await100"),
         }
     };
-    Bases { await100, get: recv_response_flow("GET"), head: recv_response_flow("HEAD"), call: recv_response_call("GET"), post_expect: super::flows::recv_response_flow_cfg(&pe).expect("post-expect flow") }
+    Bases { await100, get10: super::flows::recv_response_flow_cfg(&crate::driver::ReqCfg::new("GET", "1.0", "http://a.test/p")).expect("http10 flow"), get: recv_response_flow("GET"), head: recv_response_flow("HEAD"), call: recv_response_call("GET"), post_expect: super::flows::recv_response_flow_cfg(&pe).expect("post-expect flow") }
 }
 
 static REFUSED_CELLS: std::sync::atomic::AtomicU64 = std::sync::atomic::AtomicU64::new(0);
@@ -167,7 +170,8 @@ fn check_cell(h: &[u8], nfields: usize, front: &str, bases: &Bases, p: usize, ta
                 let parsed = head::parse(h).ok()?;
                 let loc_complete = parsed.fields.iter().enumerate().any(|(i, f)| f.0 == "location" && !f.1.is_empty() && ends.get(i + 1).map(|e| *e <= p).unwrap_or(false));
                 if (300..400).contains(&obs.status) && loc_complete && n == p {
-                    Some((format!("C05:prefix-3xx-after-location-accepted:{}", front), format!("3xx head cut after a complete Location line ({} of {} bytes) returned as a complete response, consumed {}", p, h.len(), n)))
+                    // (the request's version is a configuration of the GET flow, not another call site)
+                    Some((format!("C05:prefix-3xx-after-location-accepted:{}", front.strip_suffix("-http10").unwrap_or(front)), format!("3xx head cut after a complete Location line ({} of {} bytes) returned as a complete response, consumed {}", p, h.len(), n)))
                 } else {
                     Some((format!("C05:prefix-accepted:{}", front), format!("strict prefix ({} of {} bytes) {:?} returned a response (status {}), consumed {}", p, h.len(), show(&input[..input.len().min(60)]), obs.status, n)))
                 }
@@ -206,6 +210,7 @@ fn incremental(h: &[u8], front: &str, bases: &Bases) -> Option<(String, String, 
     let r = guarded(|| -> Option<(String, String, usize)> {
         let mut flow = match front {
             "flow-GET" => Some(bases.get.clone()),
+            "flow-GET-http10" => Some(bases.get10.clone()),
             "flow-HEAD" => Some(bases.head.clone()),
             "flow-POST-expect" => Some(bases.post_expect.clone()),
             _ => None,
@@ -391,6 +396,12 @@ pub fn all_heads(tier: Tier) -> Vec<(Vec<u8>, usize, bool)> {
         for fs in [&[][..], &[&b"Content-Length: 3"[..]][..], &[&b"Location: /x"[..], &b"Connection: keep-alive"[..]][..]] {
             heads.push((head(&status_line("1.1", s, Some(b"OK")), fs), fs.len(), false));
         }
+    }
+    // a head larger than 64 KiB: 128 fields with 600-byte values (prefixes around every line end and at both ends)
+    {
+        let big: Vec<Vec<u8>> = (0..128).map(|i| format!("X-Big-{}: {}", i, "v".repeat(600)).into_bytes()).collect();
+        let fs: Vec<&[u8]> = big.iter().map(|f| &f[..]).collect();
+        heads.push((head(&status_line("1.1", 200, Some(b"OK")), &fs), 128, false));
     }
     for n in [0usize, 1, 127, 128, 129, 130, 200] {
         for s in [200u16, 302] {
